@@ -94,6 +94,20 @@ theorem stale_without_closing_reset :
 example : ((fresh (K := Nat) 0 oneEach).runSchedule good cnt [1, 1, 0, 0, 0, 1]).cache 0 = none := by decide
 example : ((fresh (K := Nat) 0 oneEach).runSchedule good cnt [0, 1, 1, 0, 0, 1]).cache 0 = none := by decide
 
+/-! ### Several handles of one graph -/
+
+/-- Store.Graph hands every caller of one graph the same memoizer (ec2bfc6; the correspondence drives two
+    handles). Then any history of look-ups and updates through any number of handles gives, look-up by
+    look-up, the answers of the wrapped graph. -/
+theorem handles_transparent (E : Env W Q A U K) (hk : KeyDetermines E) (ops : List (HOp Q U)) (w : W) :
+    Multi.run true E ⟨w, fun _ _ => none⟩ ops = directH E w ops :=
+  multi_transparent E hk ops ⟨w, fun _ _ => none⟩ (by intro k a h; simp at h)
+
+/-- With a memoizer per handle (the code before ec2bfc6) a second handle keeps the answer from before the update. -/
+theorem stale_with_private_memoizers :
+    Multi.run false cnt ⟨0, fun _ _ => none⟩ [.read 0 7, .write 1 (), .read 0 7] = [0, 0] ∧
+    directH cnt 0 [.read 0 7, .write 1 (), .read 0 7] = [0, 1] := by decide
+
 end BW.Props.C19
 
 #print axioms BW.Props.C19.sequential_transparent
@@ -106,3 +120,5 @@ end BW.Props.C19
 #print axioms BW.Props.C19.no_stale_after_write
 #print axioms BW.Props.C19.stale_without_generation_check
 #print axioms BW.Props.C19.stale_without_closing_reset
+#print axioms BW.Props.C19.handles_transparent
+#print axioms BW.Props.C19.stale_with_private_memoizers
